@@ -32,6 +32,21 @@ def _crash(ob, exc, code):
     return Fail(ob, crash_signature(exc), '%s: %s' % (type(exc).__name__, exc), code)
 
 
+def _crash_ctx(ob, exc, code, has_err, cfg=None):
+    """Crash signature with the input class it belongs to: on recovered (error) trees and with a tab indentation config
+    the failing *function* identifies the defect (the visitors' stack discipline breaks in many statements of the same
+    function); on clean trees with ordinary configs the failing statement does."""
+    sig = crash_signature(exc)
+    fn = ':'.join(sig.split(':')[:2])
+    if cfg == 'tab':
+        sig = 'tab-config:' + fn
+    elif has_err:
+        sig = 'error-tree:' + fn
+    else:
+        sig = 'clean:' + sig
+    return Fail(ob, sig, '%s: %s' % (type(exc).__name__, exc), code)
+
+
 def _parse(code, version, fails, ob):
     try:
         return grammar(version).parse(code)
@@ -521,7 +536,7 @@ def check_C13(code, version, env):
     except RecursionError:
         return F
     except Exception as e:  # noqa
-        return [_crash('bnd:C13.iter_errors.total', e, code)]
+        return [_crash_ctx('bnd:C13.iter_errors.total', e, code, any(is_error(n) for n in nodes_of(m)))]
     if m.dump(indent=None) != before:
         F.append(Fail('bnd:C13.pure', 'dump', 'iter_errors modified the tree', code))
     endp = advance((1, 0), bom0(code))
@@ -568,7 +583,7 @@ def check_C13(code, version, env):
                 [(i.code, i.message, i.start_pos, i.end_pos) for i in issues]:
             F.append(Fail('bnd:C13.deterministic', 'repeat', 'second call differs', code))
     except Exception as e:  # noqa
-        F.append(_crash('bnd:C13.iter_errors.total', e, code))
+        F.append(_crash_ctx('bnd:C13.iter_errors.total', e, code, has_err))
     return F
 
 
@@ -694,7 +709,7 @@ def check_C20(code, version, env):
         except RecursionError:
             return F
         except Exception as e:  # noqa
-            F.append(_crash('bnd:C20.normalizer.total', e, code))
+            F.append(_crash_ctx('bnd:C20.normalizer.total', e, code, has_err, cname))
             continue
         seen = set()
         for it in issues:
@@ -720,7 +735,7 @@ def check_C20(code, version, env):
         except RecursionError:
             pass
         except Exception as e:  # noqa
-            F.append(_crash('bnd:C20.normalizer.total', e, code))
+            F.append(_crash_ctx('bnd:C20.normalizer.total', e, code, has_err, cname))
         if cname == 'default' and not has_err:
             e292 = any(i.code == 292 for i in issues)
             want = not (code.endswith('\n') or code.endswith('\r'))
